@@ -105,6 +105,16 @@ func concOps() []concOp {
 		a.Merge(x)
 		return "rs-merge:" + before + "|" + observeGraph(b).enc()
 	})
+	ops = append(ops, func(seed uint64) string {
+		// the rarely used script types of the SSA writer
+		s := genSubs(newRng(seed, "subs"), "ssa")
+		s.Metadata = &astisub.Metadata{SSAScriptType: []string{"v4.00+", "v4.00", ""}[seed%3]}
+		var b bytes.Buffer
+		if err := writeRaw("ssa", s, &b); err != nil {
+			return "ssa-type:" + errClass(err)
+		}
+		return "ssa-type:" + encBytes(b.Bytes())
+	})
 	ops = append(ops, extraConcOps...)
 	return ops
 }
